@@ -155,6 +155,11 @@ def run(res):
         res.absorb(r)
     for r in fw.run_parallel(kernel_case, [dict(seed=res.seed, idx=i) for i in range(n_kernel)]):
         res.absorb(r)
+    # the same law in the Kang engine (RadiosityKang / PatchesKang): scene cases of C19 -- all orders and
+    # the receiver response against the model, plus their independent oracles
+    import props.C19 as C19
+    for r in fw.run_parallel(C19.scene_case, [dict(seed=res.seed + 4, idx=i, quick=True) for i in range(16 if quick else 160)]):
+        res.absorb(r)
     res.rule = ("shoebox scenes (sides 1-6 m, non-integer, 6-%d patches, 1-2 bands, per-wall absorption incl. "
                 "exact 0/1, orders 2-3, window holding every arrival) + synthetic asymmetric _energy_exchange "
                 "inputs; non-trivial = (>=2 distinct wall absorptions or the uniform sub-case) and order >= 2, "
@@ -167,6 +172,9 @@ def run(res):
 def replay(res, payload):
     for f in payload.get("failures", []) + payload.get("correspondence", []):
         case = f.get("case", {})
+        import props.C19 as C19
+        if C19.replay_case(res, case):
+            continue
         if case.get("kernel"):
             res.absorb(kernel_case(dict(seed=case["seed"], idx=case["idx"])))
         else:
